@@ -201,3 +201,24 @@ Proof.
   exists (argmax_first v (tl splits) 0%Z). split; [exact H1|]. split; [reflexivity|].
   intros j Hj. apply H2. exact Hj.
 Qed.
+
+(* ---- the evaluation-friendly variance (reduced fractions) equals the specification ---- *)
+Lemma qsumr_qsum l : qsumr l == qsum l.
+Proof.
+  induction l as [|x l IH]; [reflexivity|].
+  change (qsumr (x :: l)) with (Qred (x + qsumr l)). change (qsum (x :: l)) with (x + qsum l).
+  rewrite Qred_correct, IH. reflexivity.
+Qed.
+
+Lemma variance12r_eq cnt c k : variance12r cnt c k == variance12 cnt c k.
+Proof.
+  unfold variance12r, variance12, wsum, msum. cbv zeta.
+  rewrite !Qred_correct, !qsumr_qsum. reflexivity.
+Qed.
+
+(* the generated dispatch consults threshold_otsu only for the "otsu" rule *)
+Lemma threshold_eval_eq r x l : threshold_eval r x l = threshold_of r x l.
+Proof. unfold threshold_eval, threshold_of. destruct r; reflexivity. Qed.
+
+Lemma mask_eval_eq r x l : mask_eval r x l = mask_of r x l.
+Proof. unfold mask_eval, mask_of. cbv zeta. rewrite threshold_eval_eq. reflexivity. Qed.
